@@ -43,9 +43,18 @@ def classify(exprs, p):
         if all(r is not None and not isinstance(r, tuple) and r.is_leaf()
                and not smtlib.is_defined_fun(r) for r in vals):
             return 'rbv-inverse-of-substitution'
-    if p.mutator == 'Constants':
+    if p.mutator in ('Constants', 'BVSimplifyConstants',
+                     'BVNormalizeConstants'):
         m = idmap(exprs)
-        if all(isinstance(k, int) and k in m and m[k][1] for k in p.keys):
+
+        def in_fp(k):
+            if isinstance(k, int):
+                return k in m and m[k][1]
+            # structural key: every occurrence has to lie inside an fp term
+            occ = [v for v in m.values() if v[0] == k]
+            return bool(occ) and all(v[1] for v in occ)
+
+        if all(in_fp(k) for k in p.keys):
             return 'constants-inside-fp-constant'
     if p.mutator == 'EliminateVariable' and p.kind.startswith('ddmin'):
         # a ddmin group merges the first proposal of several equalities into
@@ -136,21 +145,24 @@ def run_unit(unit):
     return part
 
 
-def plan(tier):
+def plan(tier, seed=0):
     units = []
     depth = 3 if tier == 'thorough' else 2
-    cap = 20000 if tier == 'thorough' else 800
-    for name, text in seeds.seeds(tier):
-        units.append((name, text, 'closure', 'inc', None, cap))
+    cap = 20000 if tier == 'thorough' else 500
+    for name, text in seeds.seeds(tier, seed):
+        generated = '-gen' in name or '-not' in name
         units.append((name, text, 'depth', 'inc', depth, cap * 4))
+        if tier == 'thorough' or not generated or name.endswith('0'):
+            units.append((name, text, 'closure', 'inc', None, cap))
         if tier == 'thorough' or name.endswith('0') or '-' not in name:
             units.append((name, text, 'closure', 'dec', None, cap))
+    units.sort(key=lambda u: -len(u[1]))
     return units
 
 
 def main(tier):
     rep = common.Reporter(PROP, 'model_checking', tier)
-    units = plan(rep.tier)
+    units = plan(rep.tier, rep.seed)
     parts = common.pmap(run_unit, units, init=_init)
     pairs = set()
     maxd = 0
@@ -162,7 +174,7 @@ def main(tier):
         rep.merge(p)
     rep.set('mutator_pairs_on_consecutive_edges', len(pairs))
     rep.set('max_depth', maxd)
-    rep.set('seeds', len(seeds.seeds(rep.tier)))
+    rep.set('seeds', len(seeds.seeds(rep.tier, rep.seed)))
     rep.set('traces_validated_against_impl', 0)
     rep.set('evaluations', rep.coverage.get('transitions', 0))
     rep.set('distinct_nontrivial', rep.coverage.get('states', 0))
